@@ -3,6 +3,7 @@ package main
 import (
 	"errors"
 	"fmt"
+	"github.com/biscuit-auth/biscuit-go/v2/parser"
 	"runtime"
 	"sort"
 	"strings"
@@ -272,6 +273,7 @@ func runC02(res *Result, rng *RNG, tier string, outDir string) {
 		cs.add(sc2, obs2)
 	}
 	c02CaptureWitness(res)
+	c02CaptureMatrix(res)
 	cs.write(res, outDir, "Cases_C02.v")
 }
 
@@ -313,6 +315,100 @@ func c02CaptureWitness(res *Result) {
 	e2 := verdict(t2)
 	if e1 != nil && e2 == nil {
 		res.Violate("dangling-symbol-capture", "an appended block re-binds a dangling symbol of the authority block: T refused ("+e1.Error()+"), T+B authorized", rep)
+	}
+}
+
+// c02CaptureMatrix: the same capture attempted at every POSITION a symbol can occupy in a block
+// (fact term, predicate name, rule body constant, rule head constant, check body constant,
+// expression constant, set element in an expression, set element in a fact).  The authority
+// block is issued over the base table ["corp_admin"], so that read with the default table the
+// word is a dangling index; the holder's block B then declares "corp_admin" as its first symbol.
+// Whatever the position: not (T refused and T+B authorized).
+func c02CaptureMatrix(res *Result) {
+	pub, priv := rootKeys()
+	type cse struct {
+		name       string
+		facts      []string
+		rules      []string
+		checks     []string
+		authFacts  []string
+		authPolicy string
+	}
+	W := `"corp_admin"`
+	cases := []cse{
+		{"fact-term", []string{`role(` + W + `)`}, nil, nil, nil, `allow if role(` + W + `)`},
+		{"predicate-name", []string{`corp_admin("x")`}, nil, nil, nil, `allow if corp_admin("x")`},
+		{"rule-body-constant", nil, []string{`ok("yes") <- role2(` + W + `)`}, nil, []string{`role2(` + W + `)`}, `allow if ok("yes")`},
+		{"rule-head-constant", nil, []string{`granted(` + W + `) <- role2("x")`}, nil, []string{`role2("x")`}, `allow if granted(` + W + `)`},
+		{"check-body-constant", []string{`marker(1)`}, nil, []string{`check if res(` + W + `)`}, []string{`res(` + W + `)`}, `allow if marker(1)`},
+		{"expression-constant", []string{`marker(1)`}, nil, []string{`check if res($r), $r == ` + W}, []string{`res(` + W + `)`}, `allow if marker(1)`},
+		{"expression-method-argument", []string{`marker(1)`}, nil, []string{`check if res($r), $r.starts_with(` + W + `)`}, []string{`res(` + W + `)`}, `allow if marker(1)`},
+		{"set-element-in-expression", []string{`marker(1)`}, nil, []string{`check if res($r), [` + W + `, "zz"].contains($r)`}, []string{`res(` + W + `)`}, `allow if marker(1)`},
+		{"set-element-in-fact", []string{`roles([` + W + `])`}, nil, nil, nil, `allow if roles($s), $s.contains(` + W + `)`},
+		{"rule-expression-constant", nil, []string{`ok($r) <- res($r), $r == ` + W}, nil, []string{`res(` + W + `)`}, `allow if ok(` + W + `)`},
+	}
+	for _, c := range cases {
+		base := datalog.SymbolTable{"corp_admin"}
+		b := biscuit.NewBuilder(priv, biscuit.WithSymbols(&base), biscuit.WithRNG(detReader{NewRNG(11)}))
+		ok := true
+		for _, t := range c.facts {
+			f, err := parser.FromStringFact(t)
+			ok = ok && err == nil && b.AddAuthorityFact(f) == nil
+		}
+		for _, t := range c.rules {
+			r, err := parser.FromStringRule(t)
+			ok = ok && err == nil && b.AddAuthorityRule(r) == nil
+		}
+		for _, t := range c.checks {
+			ch, err := parser.FromStringCheck(t)
+			ok = ok && err == nil && b.AddAuthorityCheck(ch) == nil
+		}
+		t0, err := b.Build()
+		if !ok || err != nil {
+			fatal("capture matrix %s: cannot build the authority block: %v", c.name, err)
+		}
+		bs, _ := t0.Serialize()
+		res.Count("capture-matrix:"+c.name, true)
+		rep := map[string]interface{}{"position": c.name, "token": fmt.Sprintf("%x", bs), "authority_facts": c.facts, "authority_rules": c.rules, "authority_checks": c.checks,
+			"authorizer_facts": c.authFacts, "policy": c.authPolicy, "scenario": "authority issued over base table [corp_admin], read with the default table; B's first new symbol is \"corp_admin\""}
+		tok, err := biscuit.Unmarshal(bs)
+		if err != nil {
+			res.Dist("capture-matrix:" + c.name + ":rejected-at-unmarshal")
+			continue
+		}
+		verdict := func(t *biscuit.Biscuit) error {
+			a, err := t.AuthorizerFor(biscuit.WithSingularRootPublicKey(pub), biscuit.WithWorldOptions(longDuration()))
+			if err != nil {
+				return err
+			}
+			for _, ft := range c.authFacts {
+				f, _ := parser.FromStringFact(ft)
+				a.AddFact(f)
+			}
+			pol, _ := parser.FromStringPolicy(c.authPolicy)
+			a.AddPolicy(pol)
+			return a.Authorize()
+		}
+		var e1, e2 error
+		pan := usable(func() {
+			e1 = verdict(tok)
+			bb := tok.CreateBlock()
+			bb.AddFact(biscuit.Fact{Predicate: biscuit.Predicate{Name: "note", IDs: []biscuit.Term{biscuit.String("corp_admin")}}})
+			t2, err := tok.Append(detReader{NewRNG(5)}, bb.Build())
+			if err != nil {
+				e2 = err
+				return
+			}
+			e2 = verdict(t2)
+		})
+		if pan != "" {
+			res.Violate("panic:capture-matrix:"+c.name, "a token with a dangling symbol ("+c.name+") panicked: "+pan, rep)
+			continue
+		}
+		res.Dist("capture-matrix:" + c.name + ":accepted")
+		if e1 != nil && e2 == nil {
+			res.Violate("dangling-symbol-capture:"+c.name, "an appended block re-binds a dangling symbol of the authority block ("+c.name+"): T refused ("+e1.Error()+"), T+B authorized", rep)
+		}
 	}
 }
 
@@ -500,6 +596,7 @@ func runC03(res *Result, rng *RNG, tier string, outDir string) {
 			}
 		}
 	}
+	c02CaptureMatrix(res)
 	cs.write(res, outDir, "Cases_C03.v")
 }
 
